@@ -219,13 +219,84 @@ def sequences(tier):
             yield seq
 
 
+LOOPBACK_SEQUENCES = [
+    ("valid0",),
+    ("valid3", "validkinds"),
+    ("foreign", "valid0"),
+    ("truncated", "valid3"),
+    ("garbage", "empty", "valid0"),
+    ("damaged-pdu-field", "valid0"),
+    ("binding-without-value", "valid-uptime0"),
+    ("v1version", "valid0"),
+    ("valid-ipv6",),
+    ("valid0", "valid-ipv6", "valid3"),
+    ("foreign-longer", "valid-ipv6", "foreign-prefix"),
+]
+
+
+def run_loopback(acc):
+    """Conformance of the fake listener transport: the same letters over real
+    loopback UDP sockets (IPv4 / IPv6) to the real register_trap_callback on
+    the stock selector loop, in a separate process without virtual clock.
+    What reaches the callback must be what the oracle expects (and what the
+    fake-transport run delivered): the valid, matching notifications, once
+    each, in order, with the sending socket as source."""
+    import json
+    import os
+    import subprocess
+    import sys
+
+    A = alphabet()
+    doc = {"sequences": [[{"hex": A[n][0].hex(), "family": 6 if len(A[n][1]) == 4 else 4} for n in seq] for seq in LOOPBACK_SEQUENCES]}
+    verif = os.path.dirname(os.path.dirname(os.path.dirname(os.path.abspath(__file__))))
+    try:
+        proc = subprocess.run([sys.executable, "-m", "vmc.loopback_c19", world.REPO_SRC], cwd=verif, input=json.dumps(doc).encode(), stdout=subprocess.PIPE, stderr=subprocess.PIPE, timeout=180)
+        res = json.loads(proc.stdout.decode() or "{}")
+    except Exception as exc:  # noqa
+        res = {"skipped": repr(exc)}
+    if "results" not in res:
+        acc.extra["loopback_pass"] = "skipped: %s" % (res.get("skipped") or "no output")
+        acc.count(evaluations=1, nontrivial=0)
+        return
+    compared = skipped = 0
+    for seq, r in zip(LOOPBACK_SEQUENCES, res["results"]):
+        if "skipped" in r:
+            skipped += 1
+            continue
+        compared += 1
+        want = [snmp.dec_message(A[n][0])["pdu"]["request_id"] for n in seq if A[n][2] is not None]
+        unjudged = [snmp.dec_message(A[n][0])["pdu"]["request_id"] for n in seq if not A[n][3]]
+        got = [d["request_id"] for d in r["deliveries"] if d["request_id"] not in unjudged]
+        # the fake-transport run of the same letters
+        deliveries, setup_exc, escaped, logged, closed = run_sequence(seq, [(A[n][0], A[n][1]) for n in seq])
+        fake_ok = not judge(seq, A, deliveries, setup_exc, escaped, logged, closed)
+        facts = {"family": "real loopback sockets", "sequence": list(seq), "delivered_request_ids": got, "expected_request_ids": want, "fake_transport_run_conforms": fake_ok}
+        bad = None
+        if got != want:
+            bad = "valid-trap-not-delivered-exactly-once"
+        elif not all(d["source"] is not None and d["source_is_a_sender"] for d in r["deliveries"]):
+            bad = "trap-delivered-with-wrong-origin-or-pythonic-view"
+        acc.count(evaluations=1, nontrivial=1, states=1, transitions=len(seq), traces=1)
+        acc.outcome("loopback-agrees" if bad is None else "loopback/" + bad)
+        if bad:
+            acc.violation({"kind": bad, "detail": {**facts, "deliveries": r["deliveries"]}, "facts": facts, "case": {"loopback": True}})
+    acc.extra["loopback_pass"] = "%d sequences over real loopback sockets (%d skipped: no IPv6), IPv6 available: %s" % (compared, skipped, res.get("ipv6"))
+    acc.sample({"family": "loopback conformance", "sequences": [list(s) for s in LOOPBACK_SEQUENCES]})
+
+
 def shards(tier):
     n = 32
-    return [{"tier": tier, "part": i, "of": n} for i in range(n)] + ([{"tier": tier, "truncations": True}] if True else [])
+    out = [{"tier": tier, "part": i, "of": n} for i in range(n)] + [{"tier": tier, "truncations": True}]
+    if tier == "thorough":
+        out.append({"tier": tier, "loopback": True})
+    return out
 
 
 def run_shard(params, acc):
     A = alphabet()
+    if params.get("loopback"):
+        run_loopback(acc)
+        return
     if params.get("truncations"):
         # every truncation of a valid trap, followed by a valid trap
         cuts = thorough_extra()
@@ -257,6 +328,18 @@ def run_shard(params, acc):
 
 def replay(case):
     A = alphabet()
+    if case.get("loopback"):
+        class L:
+            def __init__(self):
+                self.v = []
+                self.extra = {}
+            def count(self, **k): pass
+            def outcome(self, *a, **k): pass
+            def sample(self, *a, **k): pass
+            def violation(self, v): self.v.append(v)
+        a = L()
+        run_loopback(a)
+        return a.v
     if "truncate_at" in case:
         data = A["valid3"][0][: case["truncate_at"]]
         letters = ("truncated", "valid0")
